@@ -51,13 +51,16 @@ Qed.
 
 Definition ix_sum (p : ixpair) : nat := (fst (fst p) + snd (fst p))%nat.
 
+Definition ix_ok (i j : nat) (l1 l2 : list event) (p : ixpair) : Prop :=
+  let '(i', j', (e, f, _)) := p in
+  (i <= i')%nat /\ (j <= j')%nat /\
+  nth_error l1 (i' - i) = Some e /\ nth_error l2 (j' - j) = Some f.
+
 (* every yield is at indices >= the current ones, names the events at those indices of the
    lists the sweep was started on (offsets i, j), and index sums strictly increase *)
 Lemma sweep_ix_spec : forall fuel i j l1 l2 out,
   sweep_ix fuel i j l1 l2 = Ok out ->
-  Forall (fun p => let '(i', j', (e, f, _)) := p in
-            (i <= i')%nat /\ (j <= j')%nat /\
-            nth_error l1 (i' - i) = Some e /\ nth_error l2 (j' - j) = Some f) out /\
+  Forall (ix_ok i j l1 l2) out /\
   StronglySorted (fun p q => (ix_sum p < ix_sum q)%nat) out.
 Proof.
   induction fuel as [|fu IH]; intros i j l1 l2 out H.
@@ -67,32 +70,20 @@ Proof.
     destruct l2 as [|e2 r2]; [cbn in H; inversion H; split; constructor|].
     cbn [sweep_ix] in H.
     assert (Hshift1 : forall rest,
-      Forall (fun p => let '(i', j', (e, f, _)) := p in
-            (S i <= i')%nat /\ (j <= j')%nat /\
-            nth_error r1 (i' - S i) = Some e /\ nth_error (e2 :: r2) (j' - j) = Some f) rest ->
-      Forall (fun p => let '(i', j', (e, f, _)) := p in
-            (i <= i')%nat /\ (j <= j')%nat /\
-            nth_error (e1 :: r1) (i' - i) = Some e /\ nth_error (e2 :: r2) (j' - j) = Some f) rest).
+      Forall (ix_ok (S i) j r1 (e2 :: r2)) rest ->
+      Forall (ix_ok i j (e1 :: r1) (e2 :: r2)) rest).
     { intros rest F. eapply Forall_impl; [|exact F]. intros [[i' j'] [[e f] ip]] (A & B & C & D).
       repeat split; try lia; [|exact D].
       replace (i' - i)%nat with (S (i' - S i)) by lia. exact C. }
     assert (Hshift2 : forall rest,
-      Forall (fun p => let '(i', j', (e, f, _)) := p in
-            (i <= i')%nat /\ (S j <= j')%nat /\
-            nth_error (e1 :: r1) (i' - i) = Some e /\ nth_error r2 (j' - S j) = Some f) rest ->
-      Forall (fun p => let '(i', j', (e, f, _)) := p in
-            (i <= i')%nat /\ (j <= j')%nat /\
-            nth_error (e1 :: r1) (i' - i) = Some e /\ nth_error (e2 :: r2) (j' - j) = Some f) rest).
+      Forall (ix_ok i (S j) (e1 :: r1) r2) rest ->
+      Forall (ix_ok i j (e1 :: r1) (e2 :: r2)) rest).
     { intros rest F. eapply Forall_impl; [|exact F]. intros [[i' j'] [[e f] ip]] (A & B & C & D).
       repeat split; try lia; [exact C|].
       replace (j' - j)%nat with (S (j' - S j)) by lia. exact D. }
     assert (Hshift3 : forall rest,
-      Forall (fun p => let '(i', j', (e, f, _)) := p in
-            (S i <= i')%nat /\ (S j <= j')%nat /\
-            nth_error r1 (i' - S i) = Some e /\ nth_error r2 (j' - S j) = Some f) rest ->
-      Forall (fun p => let '(i', j', (e, f, _)) := p in
-            (i <= i')%nat /\ (j <= j')%nat /\
-            nth_error (e1 :: r1) (i' - i) = Some e /\ nth_error (e2 :: r2) (j' - j) = Some f) rest).
+      Forall (ix_ok (S i) (S j) r1 r2) rest ->
+      Forall (ix_ok i j (e1 :: r1) (e2 :: r2)) rest).
     { intros rest F. eapply Forall_impl; [|exact F]. intros [[i' j'] [[e f] ip]] (A & B & C & D).
       repeat split; try lia.
       - replace (i' - i)%nat with (S (i' - S i)) by lia. exact C.
